@@ -451,3 +451,50 @@ def per_instance_defaults(prog, cls, prefix=''):
                     isinstance(v, ast.Call) and call_name(v) in ('list', 'dict', 'set'))
                 out.append((st.targets[0].id, '%s:%d' % (c.module.rel, st.lineno), not mutable, 'class-level ' + unparse(v)[:50]))
     return out
+
+
+def exclusion_scope(prog):
+    """How the cash-flow method decides that an income exclusion is *this sector's*: by the identity of the sector object
+    (`obj.ID == self.ID`, `obj is self`, a mapping keyed by the object / its ID) - or by something several sectors of a
+    model can share (the short code).  -> (funcinfo, ok, why)"""
+    S = prog.classes.get('Sector')
+    f_raw = S.methods.get('AddCashFlow') if S else None
+    if f_raw is None:
+        raise AnalysisError('Sector.AddCashFlow not found')
+    f = flatten(prog, f_raw)
+    sub = single_assign_subst(f.node)
+    ident, other = False, []
+    for n in ast.walk(f.node):
+        if isinstance(n, ast.Compare) and len(n.ops) == 1:
+            pair = {unparse(n.left), unparse(n.comparators[0])}
+            if isinstance(n.ops[0], (ast.Eq, ast.Is)):
+                if any(p.endswith('.ID') for p in pair) and 'self.ID' in pair:
+                    ident = True
+                elif 'self' in pair and len(pair) == 2:
+                    ident = True
+                elif any(p.startswith('self.') for p in pair) and any(not p.startswith('self.') and '.' in p for p in pair):
+                    other.append(unparse(n))
+            if isinstance(n.ops[0], (ast.In, ast.NotIn)) and 'IncomeExclusions' in unparse(resolve_expr(n.comparators[0], sub)):
+                k = unparse(n.left)
+                if k in ('self', 'self.ID') or k.startswith('(self,') or k.startswith('(self.ID,'):
+                    ident = True
+                else:
+                    other.append(unparse(n))
+        if isinstance(n, ast.Subscript) and 'IncomeExclusions' in unparse(resolve_expr(n.value, sub)):
+            k = unparse(n.slice)
+            if k in ('self', 'self.ID'):
+                ident = True
+            else:
+                other.append(unparse(n))
+        if isinstance(n, ast.Call) and isinstance(n.func, ast.Attribute) and n.func.attr == 'get' and n.args and \
+                'IncomeExclusions' in unparse(resolve_expr(n.func.value, sub)):
+            k = unparse(n.args[0])
+            if k in ('self', 'self.ID'):
+                ident = True
+            else:
+                other.append(unparse(n))
+    ok = ident and not [o for o in other if 'Code' in o]
+    why = 'an exclusion is applied to the sector object it was registered for' if ok else \
+        'an exclusion is matched by `%s`: sectors of different countries that share that attribute share the exclusion' % (
+            (other or ['no identity test'])[0][:80])
+    return f_raw, ok, why
